@@ -117,11 +117,13 @@ type RPCPlan struct {
 		Idx    int    // index in that script; -1 = none
 		Before bool   // cancel before invoking instead
 	}
-	NoOutgoingMD   bool // do not attach any outgoing metadata (not even sim-rpc)
-	Bare           bool // no request metadata at all: no outgoing metadata, no credentials (at most one such RPC per run: its handler recognises it by the missing sim-rpc key)
-	UnaryViaStream bool // drive a unary method through NewStream
-	StartGate      int  // caller waits for this gate before starting (0 = none)
-	StartDelay     time.Duration
+	NoOutgoingMD      bool // do not attach any outgoing metadata (not even sim-rpc)
+	expectLocalReject bool // the call is refused before anything is sent
+	KeepCtx           bool // the caller does not cancel its context when the call is over (an application calling with a long-lived context): nothing of the RPC may stay behind waiting for it
+	Bare              bool // no request metadata at all: no outgoing metadata, no credentials (at most one such RPC per run: its handler recognises it by the missing sim-rpc key)
+	UnaryViaStream    bool // drive a unary method through NewStream
+	StartGate         int  // caller waits for this gate before starting (0 = none)
+	StartDelay        time.Duration
 
 	Role              string // "", "interest", "bystander", "disturber", "fresh"
 	pausedHandler     bool
@@ -658,7 +660,11 @@ func (w *World) RunCaller(parent context.Context, cc grpc.ClientConnInterface, p
 		ctx, cancel = context.WithCancel(ctx)
 	}
 	res.CallerCtx, res.CallerCancel = ctx, cancel
-	defer cancel()
+	defer func() {
+		if !p.KeepCtx {
+			cancel()
+		}
+	}()
 
 	var opts []grpc.CallOption
 	if p.OptHeader {
